@@ -27,7 +27,7 @@ ASSUMPTIONS = ["safe-class optional fields and always a cg:Z field (tag fidelity
 
 
 def plan(tier):
-    return {"cases": 1000 if tier == "quick" else 20000, "shards": 16,
+    return {"cases": 1000 if tier == "quick" else 60000, "shards": 16,
             "shard_budget_s": 300 if tier == "quick" else 3300}
 
 
